@@ -133,7 +133,8 @@ def rule_dispatch(ctx, tu):
         f = tu.fn(name)
         chain = mode_chain(ctx, R, f)
         locs = {uname(x): kids(x)[-1] for x in walk(f.body)
-                if x.get("kind") == "VarDecl" and x.get("type", {}).get("qualType") == "bool" and kids(x)}
+                if x.get("kind") == "VarDecl" and x.get("type", {}).get("qualType", "").replace("const ", "").strip() == "bool"
+                and kids(x)}
         locs["__virtual__"] = virtual_resolver(tu, f)
         for (mode, opt), want in sorted(EXPECT.items()):
             env = {"init_state_processing": mode, "option": opt}
